@@ -147,7 +147,9 @@ pub fn run(rep: &mut Rep) {
                 7 => {
                     // every identifier of every string enumeration, valid and near-miss spellings
                     let all = crate::mon::c18::REAL_WORLD;
-                    let t = all[c.rng.usize(all.len())];
+                    let lits = &schema::literals().texts;
+                    let k = c.rng.usize(all.len() + lits.len());
+                    let t: &str = if k < all.len() { all[k] } else { &lits[k - all.len()] };
                     let ty = ["Version", "Extension", "Transport", "AttestationStatementFormat"][c.rng.usize(4)];
                     (ty, encode(&crate::cbor::V::text(t)))
                 }
